@@ -34,6 +34,12 @@ type C07Scenario struct {
 	// a plain connection (a dialer that was meant to speak TLS and does not). The connection is
 	// then unencrypted whatever the Client believes: clauses (iii) and (iv) apply to it.
 	PlainDial bool `json:"plainDial,omitempty"`
+	// SwitchPolicy: between the first and the second dial the caller calls SetTLSPolicy with this
+	// policy; the second connection (and everything written after the switch) is judged by it.
+	SwitchPolicy string `json:"switchPolicy,omitempty"`
+	// Redial: instead of two DialAndSend calls: DialWithContext, (switch,) DialWithContext again
+	// without a Close in between, Send, Close.
+	Redial bool `json:"redial,omitempty"`
 }
 
 type c07 struct{ cache map[string][]C07Scenario }
@@ -203,6 +209,30 @@ func (p *c07) build(seed uint64, tier string) []C07Scenario {
 			}
 		}
 	}
+	// the caller reconfigures the Client between two dials
+	for _, auth := range []string{"AUTODISCOVER", "PLAIN", "LOGIN", "", "SCRAM-SHA-256", "CUSTOM-PLAIN"} {
+		for _, host := range hosts {
+			for _, sw := range []struct{ first, second string }{{"mandatory", "none"}, {"opportunistic", "none"}, {"none", "mandatory"}, {"none", "opportunistic"}, {"opportunistic", "mandatory"}} {
+				for _, redial := range []bool{false, true} {
+					idx++
+					user := fmt.Sprintf("u%dX%x", idx, r.Uint64()&0xffffff)
+					pass := fmt.Sprintf("Pw%dZ%016xq", idx, r.Uint64())
+					acfg := refsmtpd.AuthCfg{User: user, Pass: pass, Salt: []byte("c07salt"), Iter: 4}
+					sc := C07Scenario{Label: fmt.Sprintf("%s>%s|%s|%s|policy-switch,redial=%v|auth-offer=2|tls1.3", sw.first, sw.second, auth, host, redial),
+						Client:       ClientCfg{Host: host, TLSPolicy: sw.first, AuthType: auth, User: user, Pass: pass, TimeoutMs: 3000},
+						Server:       refsmtpd.Config{Caps: []string{"8BITMIME", "STARTTLS", authCaps(allMechs...)}, TLS: refsmtpd.TLSCfg{Cert: "valid", Version: "1.3"}, Auth: acfg},
+						SwitchPolicy: sw.second, Redial: redial, Sched: sim.Derive(seed, 7, uint64(idx))}
+					// the peer of the second connection: STARTTLS only where the new policy needs it
+					second := refsmtpd.Config{Caps: []string{"8BITMIME", authCaps("PLAIN", "LOGIN")}, TLS: refsmtpd.TLSCfg{Cert: "valid", Version: "1.3"}, Auth: acfg}
+					if sw.second != "none" {
+						second.Caps = append(second.Caps, "STARTTLS")
+					}
+					sc.Second = &second
+					out = append(out, sc)
+				}
+			}
+		}
+	}
 	p.cache[key] = out
 	return out
 }
@@ -252,6 +282,11 @@ func (p *c07) Exec(t *testing.T, scAny any) Outcome {
 		send.Op = "dialandsend2"
 		send.Batches = append(send.Batches, []MsgSpec{SimpleMsg("c07b")})
 	}
+	send.SwitchPolicy = sc.SwitchPolicy
+	if sc.Redial {
+		send.Op = "dial-redial-send"
+		send.Batches = [][]MsgSpec{{SimpleMsg("c07r")}}
+	}
 	run := execSendWith(t, send, hook)
 	run.fill(&out)
 	if out.Infra != "" {
@@ -276,7 +311,29 @@ func (p *c07) Exec(t *testing.T, scAny any) Outcome {
 			which = "second"
 			out.stat("probe.second-connection-judged", 1)
 		}
-		p.judgeConn(&out, sc, pipe, srv, which)
+		jsc := sc
+		if i > 0 && sc.SwitchPolicy != "" {
+			// the second connection was made under the new policy
+			c := *sc
+			c.Client.TLSPolicy = sc.SwitchPolicy
+			jsc = &c
+		}
+		p.judgeConn(&out, jsc, pipe, srv, which)
+		if i == 0 && run.Switched && len(run.SwitchOffsets) > 0 && sc.SwitchPolicy == "mandatory" && sc.Client.TLSPolicy == "none" {
+			// what the client wrote on the old, unencrypted connection after the caller had
+			// switched to mandatory TLS and dialled again
+			all := pipe.C2S()
+			if off := run.SwitchOffsets[0]; off < int64(len(all)) {
+				for _, line := range strings.Split(string(all[off:]), "\r\n") {
+					verb := strings.ToUpper(strings.SplitN(line, " ", 2)[0])
+					if line == "" || verb == "QUIT" {
+						continue
+					}
+					out.violate("C07:mandatory-tls-cleartext-command:after-policy-switch", "after SetTLSPolicy(TLSMandatory) and a new DialWithContext the client wrote %q in clear on the connection of the earlier dial", clipStr(line, 80))
+					break
+				}
+			}
+		}
 	}
 	return out
 }
